@@ -24,33 +24,51 @@ def cbFind (P : Nat) : Cb (List Node) := fun st n _ _ _ =>
   | some m => if m.cls = P then (some m, st ++ [m]) else (none, st)
   | none => (none, st)
 
-/-- values still to be bound; `failed`: `params.pop(0)` was evaluated on an empty list (IndexError —
-in Python the traversal is aborted by the exception; the model goes on with the flag set) -/
-structure FillSt where
-  vals : List Nat
-  failed : Bool
-deriving Repr, DecidableEq
+/-- stable insertion sort (the model of Python's `sorted(..., key=position)`) -/
+def ins {α : Type} (le : α → α → Bool) (a : α) : List α → List α
+  | [] => [a]
+  | b :: l => if le a b then a :: b :: l else b :: ins le a l
+def isort {α : Type} (le : α → α → Bool) : List α → List α
+  | [] => []
+  | a :: l => ins le a (isort le l)
 
-/-- `params_replace`: `if isinstance(node, Parameter): value = params.pop(0);
-return Constant(value, alias=node.alias, parentheses=node.parentheses)`.
-The new constant carries the value as its identity and keeps the placeholder's children (its alias). -/
-def cbFill (P C : Nat) : Cb FillSt := fun st n _ _ _ =>
+/-- position in the rendered statement (`text.find(marker)`); `order.length` when not rendered -/
+def rank (order : List Nat) (t : Nat) : Nat := order.findIdx (· == t)
+
+/-- `sort_by_text_position(query, params)`: fewer than two — as found; a placeholder that is not rendered — the
+traversal order is kept; otherwise ordered by the position in the rendered statement -/
+def sortByText (σ : Schema) (q : Node) (ps : List Node) : List Node :=
+  let order := textOrder σ q
+  if ps.length < 2 then ps
+  else if ps.all (fun p => order.contains p.tag) then isort (fun a b => rank order a.tag ≤ rank order b.tag) ps
+  else ps
+
+/-- `get_query_params(query)`: the placeholders found by the walk, in the order they are written -/
+def getParams (σ : Schema) (P : Nat) (q : Node) : List Node := sortByText σ q (walk σ (cbFind P) q []).st
+
+/-- `params_replace` of `fill_query_params`: the value is looked up by the identity of the placeholder;
+`Constant(value, alias=node.alias, parentheses=node.parentheses)` keeps the placeholder's children -/
+def cbFillMap (P C : Nat) (values : List (Nat × Nat)) : Cb Unit := fun st n _ _ _ =>
   match n with
   | some m =>
     if m.cls = P then
-      match st.vals with
-      | v :: vs => (some (.mk C m.slot v m.kids), ⟨vs, st.failed⟩)
-      | [] => (some m, ⟨[], true⟩)
+      match values.lookup m.tag with
+      | some v => (some (.mk C m.slot v m.kids), st)
+      | none => (some m, st)                 -- KeyError in Python; cannot happen (same walk as `get_query_params`)
     else (none, st)
   | none => (none, st)
 
-/-- `get_query_params(query)` -/
-def getParams (σ : Schema) (P : Nat) (q : Node) : List Node := (walk σ (cbFind P) q []).st
+structure FillRes where
+  out : Out Unit
+  failed : Bool      -- IndexError: `params.pop(0)` on an empty list while assigning the values (nothing is changed then)
+  left : Nat         -- values not used
 
-/-- `fill_query_params(query, params)`: the query object itself is returned (mutated) -/
-def fillParams (σ : Schema) (P C : Nat) (q : Node) (vs : List Nat) : Node × FillSt :=
-  let o := walk σ (cbFill P C) q ⟨vs, false⟩
-  (o.self, o.st)
+/-- `fill_query_params(query, params)`: values are assigned to the placeholders in textual order first, then the
+walk replaces every placeholder by its value -/
+def fillParams (σ : Schema) (P C : Nat) (q : Node) (vs : List Nat) : FillRes :=
+  let found := getParams σ P q
+  if vs.length < found.length then ⟨⟨none, q, (), []⟩, true, 0⟩
+  else ⟨walk σ (cbFillMap P C ((found.map Node.tag).zip vs)) q (), false, vs.length - found.length⟩
 
 /-! ## `PreparedStatementPlanner` -/
 
@@ -90,7 +108,7 @@ def execute (σ : Schema) (P C : Nat) (params : Option (List Nat)) (s : PState) 
     | some (some n), some vs =>
       if vs.length ≠ n then (s, .error .planning)        -- "Count of execution parameters don't match …"
       else
-        let q' := (fillParams σ P C q vs).1
+        let q' := (fillParams σ P C q vs).out.self
         (⟨some none, some q'⟩, .planned q')
 
 /-- `get_statement_info()['parameters']`: length, or the exception -/
